@@ -219,6 +219,7 @@ def run(F, R, tier):
     from . import c15
     wb = [b for b in F.bodies if b.get("self_adt") == "graph::ModuleEntryIterator" and not b.get("derived")]
     c15.walker_enqueue(F, R, wb, tag="C02-w", pid="C02")
+    c15.walker_selection(F, R, wb, tag="C02-w")
 
     # ---------------- C02-f ------------------------------------------------
     va = F.body("graph::ModuleGraph::valid")
